@@ -827,6 +827,60 @@ def search(ctx, np, util, config, sf_actual, icases=()):
             pass
         except Exception as e:  # noqa: BLE001
             bad.append(("stream_force_as", dict(force_as=fa, got=type(e).__name__)))
+    # every kind of open binary stream: file objects, in-memory and spooled files, tempfile's wrapper object (not an
+    # io.IOBase), a delegating reader - read with force_as, ValueError without
+    import tempfile
+
+    class Delegating(object):
+        def __init__(self, raw):
+            self._raw = raw
+
+        def read(self, *a):
+            return self._raw.read(*a)
+
+        def readline(self, *a):
+            return self._raw.readline(*a)
+
+        def seek(self, *a):
+            return self._raw.seek(*a)
+
+        def tell(self):
+            return self._raw.tell()
+
+    def streams():
+        yield "io.BytesIO", io.BytesIO(blob.getvalue())
+        yield "io.BufferedReader", io.BufferedReader(io.BytesIO(blob.getvalue()))
+        t = tempfile.NamedTemporaryFile(dir=FILES)
+        t.write(blob.getvalue())
+        t.flush()
+        t.seek(0)
+        yield "tempfile.NamedTemporaryFile", t
+        sp = tempfile.SpooledTemporaryFile(dir=FILES)
+        sp.write(blob.getvalue())
+        sp.seek(0)
+        yield "tempfile.SpooledTemporaryFile", sp
+        yield "delegating reader", Delegating(io.BytesIO(blob.getvalue()))
+
+    for fa in (None, "npy"):
+        for sname, st in streams():
+            ctx.count("search:stream-kinds")
+            try:
+                got = util.read_signal(st, force_as=fa)
+                if fa is None:
+                    bad.append(("stream_force_as", dict(stream=sname, force_as=None, got="no exception")))
+                elif not same(got, a):
+                    bad.append(("roundtrip", dict(container="npy", access=sname, force_as=fa, got=str(got)[:80], want=str(a))))
+            except ValueError as e:
+                if fa is not None:
+                    bad.append(("roundtrip-raised", dict(container="npy", access=sname, force_as=fa, error="ValueError: " + str(e)[:100])))
+            except Exception as e:  # noqa: BLE001
+                bad.append(("stream_force_as" if fa is None else "roundtrip-raised",
+                            dict(stream=sname, force_as=fa, got=type(e).__name__, error=str(e)[:100])))
+            finally:
+                try:
+                    st.close()
+                except Exception:  # noqa: BLE001
+                    pass
     for fa in ["foo", "", "WAV", "numpy", "mp3", "Npy"]:
         ctx.count("search:errors")
         try:
